@@ -61,7 +61,8 @@ impl Duration {
 }
 impl vstd::std_specs::ops::AddSpecImpl<Duration> for NaiveDate {
     open spec fn obeys_add_spec() -> bool { false }
-    open spec fn add_req(self, rhs: Duration) -> bool { true }
+    // chrono's `+` PANICS when the result leaves its calendar (about +-262 000 years)
+    open spec fn add_req(self, rhs: Duration) -> bool { -95000000 < day_count(self) + dur_days(rhs) < 95000000 }
     open spec fn add_spec(self, rhs: Duration) -> NaiveDate { arbitrary() }
 }
 impl core::ops::Add<Duration> for NaiveDate {
@@ -71,6 +72,56 @@ impl core::ops::Add<Duration> for NaiveDate {
         ensures day_count(r) == day_count(self) + dur_days(rhs)
     { unimplemented!() }
 }
+
+pub assume_specification [i64::unsigned_abs] (x: i64) -> (r: u64) ensures r == (if x >= 0 { x as int } else { -(x as int) });
+pub assume_specification [i32::unsigned_abs] (x: i32) -> (r: u32) ensures r == (if x >= 0 { x as int } else { -(x as int) });
+// month / day offsets: the checked operations answer None outside chrono's calendar; the `+` / `-` operators PANIC there, so their
+// precondition is a fact nothing in the engine can establish for user-supplied offsets (uninterpreted `fits`)
+#[verifier::external_body] pub struct Months { _o: u8 }
+#[verifier::external_body] pub struct Days { _o: u8 }
+pub uninterp spec fn months_of(m: Months) -> int;
+pub uninterp spec fn days_of(d: Days) -> int;
+pub uninterp spec fn fits(d: NaiveDate, months: int, days: int) -> bool;
+impl Months { #[verifier::external_body] pub fn new(n: u32) -> (r: Months) ensures months_of(r) == n { unimplemented!() } }
+impl Days { #[verifier::external_body] pub fn new(n: u64) -> (r: Days) ensures days_of(r) == n { unimplemented!() } }
+impl NaiveDate {
+    #[verifier::external_body]
+    pub fn checked_add_months(self, rhs: Months) -> (r: Option<NaiveDate>) { unimplemented!() }
+    #[verifier::external_body]
+    pub fn checked_sub_months(self, rhs: Months) -> (r: Option<NaiveDate>) { unimplemented!() }
+    #[verifier::external_body]
+    pub fn checked_add_days(self, rhs: Days) -> (r: Option<NaiveDate>)
+        ensures r matches Some(d) ==> day_count(d) == day_count(self) + days_of(rhs)
+    { unimplemented!() }
+    #[verifier::external_body]
+    pub fn checked_sub_days(self, rhs: Days) -> (r: Option<NaiveDate>)
+        ensures r matches Some(d) ==> day_count(d) == day_count(self) - days_of(rhs)
+    { unimplemented!() }
+}
+impl vstd::std_specs::ops::AddSpecImpl<Months> for NaiveDate {
+    open spec fn obeys_add_spec() -> bool { false }
+    open spec fn add_req(self, rhs: Months) -> bool { fits(self, months_of(rhs), 0) }
+    open spec fn add_spec(self, rhs: Months) -> NaiveDate { arbitrary() }
+}
+impl core::ops::Add<Months> for NaiveDate { type Output = NaiveDate; #[verifier::external_body] fn add(self, rhs: Months) -> (r: NaiveDate) { unimplemented!() } }
+impl vstd::std_specs::ops::SubSpecImpl<Months> for NaiveDate {
+    open spec fn obeys_sub_spec() -> bool { false }
+    open spec fn sub_req(self, rhs: Months) -> bool { fits(self, -months_of(rhs), 0) }
+    open spec fn sub_spec(self, rhs: Months) -> NaiveDate { arbitrary() }
+}
+impl core::ops::Sub<Months> for NaiveDate { type Output = NaiveDate; #[verifier::external_body] fn sub(self, rhs: Months) -> (r: NaiveDate) { unimplemented!() } }
+impl vstd::std_specs::ops::AddSpecImpl<Days> for NaiveDate {
+    open spec fn obeys_add_spec() -> bool { false }
+    open spec fn add_req(self, rhs: Days) -> bool { fits(self, 0, days_of(rhs)) }
+    open spec fn add_spec(self, rhs: Days) -> NaiveDate { arbitrary() }
+}
+impl core::ops::Add<Days> for NaiveDate { type Output = NaiveDate; #[verifier::external_body] fn add(self, rhs: Days) -> (r: NaiveDate) ensures day_count(r) == day_count(self) + days_of(rhs) { unimplemented!() } }
+impl vstd::std_specs::ops::SubSpecImpl<Days> for NaiveDate {
+    open spec fn obeys_sub_spec() -> bool { false }
+    open spec fn sub_req(self, rhs: Days) -> bool { fits(self, 0, -days_of(rhs)) }
+    open spec fn sub_spec(self, rhs: Days) -> NaiveDate { arbitrary() }
+}
+impl core::ops::Sub<Days> for NaiveDate { type Output = NaiveDate; #[verifier::external_body] fn sub(self, rhs: Days) -> (r: NaiveDate) ensures day_count(r) == day_count(self) - days_of(rhs) { unimplemented!() } }
 
 //@fn base/src/formatter/dates.rs convert_to_serial_number
 //@spec
@@ -100,6 +151,14 @@ impl core::ops::Add<Duration> for NaiveDate {
     ensures
         r.is_ok() <==> valid_civil(year as int, month as int, day as int),
         r.is_ok() ==> r.unwrap() == civil_days(year as int, month as int, day as int) - 693594,
+//@rewrite `-> Result<i32, String> {` => `-> (r: Result<i32, String>) {`
+//@end
+
+/// DATE(year, month, day) with Excel's permissive wrap-around: no argument makes it panic (C11), and whatever it answers is a serial
+/// of the supported range, the serial of the date it arrived at (C21)
+//@fn base/src/formatter/dates.rs permissive_date_to_serial_number
+//@spec
+    ensures r matches Ok(s) ==> 1 <= s <= 2958465
 //@rewrite `-> Result<i32, String> {` => `-> (r: Result<i32, String>) {`
 //@end
 
